@@ -148,6 +148,9 @@ Definition MAINNET : N := 255.
 Definition TESTNET : N := 1.
 Definition CUSTOM08 : N := 8.
 
+(* melpow::Proof::verify under the two hash functions *)
+Inductive verdict := VInvalid | VLegacy | VTip910.
+
 (* oracles: everything obtained by hashing, signatures, proof-of-work *)
 Record stf_oracle := {
   so_vm : oracle;                                (* Hash / SigEOk inside covenants *)
@@ -155,7 +158,7 @@ Record stf_oracle := {
   so_faucet_marker : N -> N;                     (* faucet_dedup_pseudocoin(txhash).txhash *)
   so_liq_denom : N -> N;                         (* PoolKey::liq_token_denom, by pool key code *)
   so_header_hash : header -> N;
-  so_melpow : N -> N -> N -> N -> N;             (* proof_id, header hash of the seed block, coin key, difficulty ->
-                                                    0 invalid, 1 valid under the legacy hash, 2 valid under TIP-910, 3 panic *)
+  so_melpow : N -> N -> N -> N -> verdict;       (* proof_id, header hash of the seed block, coin key, difficulty;
+                                                    a verification that panics counts as invalid (proof_is_tip910) *)
   so_ed25519 : N -> N -> list N -> bool          (* pubkey, message (header hash), signature *)
 }.
